@@ -15,6 +15,7 @@ import (
 	stakingtypes "github.com/cosmos/cosmos-sdk/x/staking/types"
 
 	channeltypes "github.com/cosmos/ibc-go/v10/modules/core/04-channel/types"
+	ibcexported "github.com/cosmos/ibc-go/v10/modules/core/exported"
 
 	consumertypes "github.com/cosmos/interchain-security/v7/x/ccv/consumer/types"
 	providertypes "github.com/cosmos/interchain-security/v7/x/ccv/provider/types"
@@ -182,6 +183,29 @@ func (w *World) projectProvider(c *Chain, ctx sdk.Context) map[string]any {
 	s["cl2c"] = cl2c
 
 	s["dig"] = w.digests(c, ctx)
+	// IBC objects on the provider
+	clients := []string{}
+	app.GetIBCKeeper().ClientKeeper.IterateClientStates(ctx, nil, func(id string, _ ibcexported.ClientState) bool {
+		clients = append(clients, id)
+		return false
+	})
+	s["clients"] = sortedStrs(clients)
+	chans := map[string]any{}
+	for _, ch := range app.GetIBCKeeper().ChannelKeeper.GetAllChannels(ctx) {
+		if ch.PortId != ccvtypes.ProviderPortID {
+			continue
+		}
+		conn := ""
+		if len(ch.ConnectionHops) > 0 {
+			conn = ch.ConnectionHops[0]
+		}
+		cl := ""
+		if ce, ok := app.GetIBCKeeper().ConnectionKeeper.GetConnection(ctx, conn); ok {
+			cl = ce.ClientId
+		}
+		chans[ch.ChannelId] = map[string]any{"state": ch.State.String(), "order": ch.Ordering.String(), "conn": conn, "client": cl}
+	}
+	s["chans"] = chans
 	return s
 }
 
@@ -728,9 +752,9 @@ func (w *World) describePacket(dstPort string, data []byte) map[string]any {
 				if sp.Infraction == stakingtypes.Infraction_INFRACTION_DOUBLE_SIGN {
 					inf = "doublesign"
 				}
-				return map[string]any{"type": "slash", "key": w.N.keyName(sp.Validator.Address), "id": int64(sp.ValsetUpdateId), "inf": inf}
+				return map[string]any{"type": "slash", "key": w.N.keyName(sp.Validator.Address), "id": int64(sp.ValsetUpdateId), "inf": inf, "pow": sp.Validator.Power}
 			case ccvtypes.VscMaturedPacket:
-				return map[string]any{"type": "matured", "key": "", "id": int64(cp.GetVscMaturedPacketData().ValsetUpdateId), "inf": ""}
+				return map[string]any{"type": "matured", "key": "", "id": int64(cp.GetVscMaturedPacketData().ValsetUpdateId), "inf": "", "pow": 0}
 			}
 		}
 	}
